@@ -1,4 +1,5 @@
 import TracklibVerif.Lemmas.Proj
+import TracklibVerif.Lemmas.ProjExt
 import Mathlib.Analysis.Real.Sqrt
 /-! # C20 — projecting a point on a polyline returns its nearest point
 
@@ -12,8 +13,18 @@ for some `0 ≤ t ≤ 1`.
 What is and is not proved. T1 and T2 hold for every segment. Minimality (T3, T4) is proved for
 **non-vertical** segments only: for a vertical segment the code (as it is, pinned by
 `test_geometry.py::testProjSegment`) returns the nearest END point or raises — see `vertical_as_coded`
-and the counter-examples at the end, which are evaluated on the model. IEEE rounding is outside these
-statements (the horizontal-segment defect D17 exists only in floating point). -/
+and the counter-examples, which are evaluated on the model. For every non-vertical orientation the statement
+is proved at the strength of the property: `proj_segment_nearest_partial` (one segment: point on it, distance
+to it, minimal), `proj_segment_horizontal` (closed form for horizontal segments), `proj_polyline_vertices` and
+`proj_polyline_nearest_partial` (polyline: index of the carrying segment, point on it, distance to it, minimal
+over every point of every segment, the skipped zero-length segments included). IEEE rounding is outside these
+statements (the horizontal-segment defect D17 and its near-vertical counterpart exist only in floating point).
+
+Front ends (second half of the file): the argument forms of `proj_segment` / `proj_polyligne` (lists vs numpy
+arrays, two sequences of unequal lengths), `Track.getX()/getY()` on 3D positions, `__projOnTrack` and both
+branches of `mapOnTrack` are in the model; `projOnTrack3_planimetric` says that the projection is planimetric
+(no altitude is read, the returned point has third coordinate 0), so that every theorem about `projPolyligne`
+applies to `mapOnTrack` on 3D data through `mapOnTrack3_coord` / `mapOnTrack3_track`. -/
 namespace TV.C20
 open TV.Proj
 variable {α : Type} [Field α] [LinearOrder α] [IsStrictOrderedRing α]
@@ -316,5 +327,259 @@ example : (projSegment sqTable 0 0 8 0 3 4).toOption = some (4, 3, 0) := by deci
 lattice `eps = 1` skips exactly the zero-length segments), query `(0,0)` → segment 0, foot `(0,3)`, distance 3 -/
 example : (projPolyligne sqTable 1 [(-4, 3), (4, 3), (4, 3), (4, -3)] 0 0).toOption
     = some (3, 0, 3, 0) := by decide +kernel
+
+/-! ## The statement at the strength of the property, for every non-vertical orientation
+
+Exact arithmetic (an ordered field): the floating-point defect D17 of horizontal segments (`yb = -c / b` not
+reproducing the ordinate) does not exist here. -/
+
+/-- T3' `proj_segment_nearest_partial`: on every **non-vertical** segment (oblique or horizontal, either direction)
+`proj_segment` returns `(d, (px,py))` with: `(px,py)` on the segment, `d` = distance from the query to `(px,py)`,
+and `d` ≤ the distance from the query to every point of the segment — the three clauses of the property together.
+Missing w.r.t. the property: vertical segments (false there: `proj_segment_min_fails_on_vertical`). -/
+theorem proj_segment_nearest_partial {sqrt : α → α} (hs : SqrtSpec sqrt) (x1 y1 x2 y2 x y : α) (hx : x1 ≠ x2) :
+    ∃ d px py, projSegment sqrt x1 y1 x2 y2 x y = .ok (d, px, py) ∧ OnSeg x1 y1 x2 y2 px py ∧
+      0 ≤ d ∧ d * d = d2 x y px py ∧ ∀ qx qy, OnSeg x1 y1 x2 y2 qx qy → d * d ≤ d2 x y qx qy := by
+  obtain ⟨d, px, py, e, hmin⟩ := proj_segment_min_partial hs x1 y1 x2 y2 x y hx
+  obtain ⟨d0, dd⟩ := proj_dist_consistent hs _ _ _ _ _ _ _ _ _ e
+  exact ⟨d, px, py, e, proj_on_segment hs _ _ _ _ _ _ _ _ _ e, d0, dd, hmin⟩
+
+/-- `proj_segment_horizontal`: a horizontal segment `(x1,y1)-(x2,y1)` in exact arithmetic. The returned point has the
+segment's ordinate and lies on it; when the query abscissa is between `x1` and `x2` (either order) the returned point
+is the foot `(x, y1)` and the distance is `|y - y1|`; in every case the distance is the distance to the returned
+point and is minimal. (In double arithmetic this fails for the ordinates listed under the finding
+`horizontal-segment-fp`: needs exact arithmetic.) -/
+theorem proj_segment_horizontal {sqrt : α → α} (hs : SqrtSpec sqrt) (x1 x2 y1 x y : α) (hx : x1 ≠ x2) :
+    ∃ d px, projSegment sqrt x1 y1 x2 y1 x y = .ok (d, px, y1) ∧ OnSeg x1 y1 x2 y1 px y1 ∧
+      0 ≤ d ∧ d * d = d2 x y px y1 ∧
+      (((x1 ≤ x ∧ x ≤ x2) ∨ (x2 ≤ x ∧ x ≤ x1)) → px = x ∧ d * d = (y - y1) * (y - y1)) ∧
+      ∀ qx qy, OnSeg x1 y1 x2 y1 qx qy → d * d ≤ d2 x y qx qy := by
+  obtain ⟨d, px, py, e, hon, d0, dd, hmin⟩ := proj_segment_nearest_partial hs x1 y1 x2 y1 x y hx
+  have hpy : py = y1 := by
+    obtain ⟨t, _, _, _, e2⟩ := hon
+    rw [e2]; ring
+  subst hpy
+  refine ⟨d, px, e, hon, d0, dd, ?_, hmin⟩
+  intro hin
+  have hne : x2 - x1 ≠ 0 := sub_ne_zero.mpr (Ne.symm hx)
+  have hfoot : OnSeg x1 py x2 py x py := by
+    refine ⟨(x - x1) / (x2 - x1), ?_, ?_, by field_simp; ring, by ring⟩
+    · rcases hin with ⟨a, b⟩ | ⟨a, b⟩
+      · exact div_nonneg (by linarith) (by linarith)
+      · exact div_nonneg_of_nonpos (by linarith) (by linarith)
+    · rcases hin with ⟨a, b⟩ | ⟨a, b⟩
+      · have : 0 < x2 - x1 := lt_of_le_of_ne (by linarith) (Ne.symm hne)
+        rw [div_le_one this]; linarith
+      · have : x2 - x1 < 0 := lt_of_le_of_ne (by linarith) hne
+        rw [div_le_one_of_neg this]; linarith
+  have hle := hmin x py hfoot
+  rw [dd] at hle
+  unfold d2 at hle dd
+  have hsq : (x - px) * (x - px) ≤ 0 := by nlinarith
+  have hx0 : x - px = 0 := by
+    have := mul_self_nonneg (x - px)
+    exact mul_self_eq_zero.mp (le_antisymm hsq this)
+  have hpx : px = x := by linarith
+  refine ⟨hpx, ?_⟩
+  rw [dd, hpx]; ring
+
+/-- T4' `proj_polyline_vertices`: when every skipped segment is a true zero-length one (two equal vertices: what the
+`< 1e-16` test of `proj_polyligne` is there for), the returned distance is at most the distance from the query to
+**every vertex** of the polyline — the vertices of the skipped segments included, although `proj_segment` was never
+called on them (each one is an end point of a neighbouring segment that was not skipped). -/
+theorem proj_polyline_vertices {sqrt : α → α} (hs : SqrtSpec sqrt) (eps : α) (pts : List (α × α))
+    (x y d px py : α) (i : Nat) (h : projPolyligne sqrt eps pts x y = .ok (d, px, py, i))
+    (hz : ∀ j p1 p2, pts[j]? = some p1 → pts[j + 1]? = some p2 → skipped eps p1.1 p1.2 p2.1 p2.2 = true → p1 = p2) :
+    ∀ (v : Nat) (p : α × α), pts[v]? = some p → d * d ≤ d2 x y p.1 p.2 := by
+  obtain ⟨⟨p1, p2, s1, s2, hk, _⟩, _, _, hall⟩ := proj_polyline_min_partial hs eps pts x y d px py i h
+  exact vertices_of_live eps pts (fun p => d * d ≤ d2 x y p.1 p.2) i p1 hz
+    (fun j q1 q2 t1 t2 hj => (hall j q1 q2 t1 t2 hj).1) s1 (hall i p1 p2 s1 s2 hk).1.1
+
+/-- T4'' `proj_polyline_nearest_partial`: the property at full strength for every polyline without vertical segment.
+Hypotheses: no segment kept by the `< 1e-16` test is vertical; every segment skipped by it has two equal vertices; at
+least one segment is kept. Then `proj_polyligne` returns `(d, (px,py), i)` with: `i` the index of a segment of the
+polyline, `(px,py)` on that segment, `d` = distance from the query to `(px,py)`, and `d` ≤ the distance from the query
+to **every point of every segment** of the polyline (skipped ones included): `(px,py)` is a nearest point of the
+polyline. Segments may be oblique or horizontal, run in any direction, repeat vertices, be collinear.
+Missing w.r.t. the property: polylines with a vertical segment (false there: D16); a skipped segment of non-zero
+length `< 1e-16` (its points are nearer than `1e-16` to a vertex). -/
+theorem proj_polyline_nearest_partial {sqrt : α → α} (hs : SqrtSpec sqrt) (eps : α) (pts : List (α × α)) (x y : α)
+    (hnv : ∀ j p1 p2, pts[j]? = some p1 → pts[j + 1]? = some p2 → skipped eps p1.1 p1.2 p2.1 p2.2 = false → p1.1 ≠ p2.1)
+    (hz : ∀ j p1 p2, pts[j]? = some p1 → pts[j + 1]? = some p2 → skipped eps p1.1 p1.2 p2.1 p2.2 = true → p1 = p2)
+    (hex : ∃ j p1 p2, pts[j]? = some p1 ∧ pts[j + 1]? = some p2 ∧ skipped eps p1.1 p1.2 p2.1 p2.2 = false) :
+    ∃ d px py i, projPolyligne sqrt eps pts x y = .ok (d, px, py, i) ∧
+      (∃ p1 p2, pts[i]? = some p1 ∧ pts[i + 1]? = some p2 ∧ OnSeg p1.1 p1.2 p2.1 p2.2 px py) ∧
+      0 ≤ d ∧ d * d = d2 x y px py ∧
+      ∀ j p1 p2, pts[j]? = some p1 → pts[j + 1]? = some p2 →
+        ∀ qx qy, OnSeg p1.1 p1.2 p2.1 p2.2 qx qy → d * d ≤ d2 x y qx qy := by
+  obtain ⟨⟨d, px, py, i⟩, h⟩ := proj_polyline_total hs eps pts x y hnv hex
+  obtain ⟨⟨p1, p2, s1, s2, _, hon⟩, d0, dd, hall⟩ := proj_polyline_min_partial hs eps pts x y d px py i h
+  refine ⟨d, px, py, i, h, ⟨p1, p2, s1, s2, hon⟩, d0, dd, ?_⟩
+  intro j q1 q2 t1 t2 qx qy hq
+  cases hsk : skipped eps q1.1 q1.2 q2.1 q2.2 with
+  | false => exact (hall j q1 q2 t1 t2 hsk).2 (hnv j q1 q2 t1 t2 hsk) qx qy hq
+  | true =>
+    have e := hz j q1 q2 t1 t2 hsk
+    subst e
+    obtain ⟨t, _, _, e1, e2⟩ := hq
+    have ex : qx = q1.1 := by rw [e1]; ring
+    have ey : qy = q1.2 := by rw [e2]; ring
+    rw [ex, ey]
+    exact proj_polyline_vertices hs eps pts x y d px py i h hz j q1 t1
+
+/-! ## Argument forms and front ends -/
+
+/-- `projSegmentG_lists`: with a `list` / `tuple` of Python numbers the parametrised model of `proj_segment` is the
+kernel `projSegment` all the theorems above are about. -/
+theorem projSegmentG_lists (sqrt : α → α) (x1 y1 x2 y2 x y : α) :
+    projSegmentG false sqrt x1 y1 x2 y2 x y = projSegment sqrt x1 y1 x2 y2 x y :=
+  projSegmentG_false sqrt x1 y1 x2 y2 x y
+
+/-- `projSegmentG_numpy_nonvertical`: with numpy scalars (`-c / b` never raises) the result is the same on every
+non-vertical segment. (On a vertical one numpy yields `inf` / `nan` where Python floats raise `ZeroDivisionError`:
+IEEE semantics, outside an ordered field; compared bit for bit by the correspondence check.) -/
+theorem projSegmentG_numpy_nonvertical (np : Bool) (sqrt : α → α) (x1 y1 x2 y2 x y : α) (hx : x1 ≠ x2) :
+    projSegmentG np sqrt x1 y1 x2 y2 x y = projSegment sqrt x1 y1 x2 y2 x y :=
+  projSegmentG_of_ne np sqrt x1 y1 x2 y2 x y hx
+
+/-- `projPolyligneXY_spec`: `proj_polyligne(Xp, Yp, x, y)` with `len(Yp) >= len(Xp)` is the kernel `projPolyligne` on the
+vertices `zip(Xp, Yp)` (extra ordinates are ignored) — for lists, and for numpy arrays when no segment kept by the
+`< 1e-16` test is vertical. -/
+theorem projPolyligneXY_spec (np : Bool) (sqrt : α → α) (eps : α) (X Y : List α) (x y : α) (hl : X.length ≤ Y.length)
+    (hnp : np = false ∨ ∀ j p1 p2, (X.zip Y)[j]? = some p1 → (X.zip Y)[j + 1]? = some p2 →
+      skipped eps p1.1 p1.2 p2.1 p2.2 = false → p1.1 ≠ p2.1) :
+    projPolyligneXY np sqrt eps X Y x y = (projPolyligne sqrt eps (X.zip Y) x y).mapError ErrX.base := by
+  have hseg : ∀ k p1 p2, SegAt (X.zip Y) k p1 p2 → skipped eps p1.1 p1.2 p2.1 p2.2 = false →
+      projSegmentG np sqrt p1.1 p1.2 p2.1 p2.2 x y = projSegment sqrt p1.1 p1.2 p2.1 p2.2 x y := by
+    intro k p1 p2 hs hk
+    rcases hnp with e | hnv
+    · subst e; exact projSegmentG_false ..
+    · exact projSegmentG_of_ne np sqrt _ _ _ _ _ _ (hnv k p1 p2 hs.1 hs.2 hk)
+  unfold projPolyligneXY projPolyligne
+  rw [polyLoopXY_zip np sqrt eps x y X Y 0 none hl hseg]
+  cases polyLoop sqrt eps x y (X.zip Y) 0 none with
+  | error e => rfl
+  | ok r => cases r <;> rfl
+
+/-- `projPolyligneXY_short`: with `len(Yp) < len(Xp)` `proj_polyligne` never returns a value (`IndexError`, an earlier
+`ZeroDivisionError`, or `UnboundLocalError` when `Xp` has fewer than two elements). -/
+theorem projPolyligneXY_short (np : Bool) (sqrt : α → α) (eps : α) (X Y : List α) (x y : α) (hl : Y.length < X.length)
+    (r : α × α × α × Nat) : projPolyligneXY np sqrt eps X Y x y ≠ .ok r := by
+  unfold projPolyligneXY
+  by_cases h2 : 2 ≤ X.length
+  · cases hres : polyLoopXY np sqrt eps x y X Y 0 none with
+    | error e => simp
+    | ok res => exact absurd hres (polyLoopXY_short np sqrt eps x y X Y 0 none res h2 hl)
+  · match X, h2 with
+    | [], _ => simp [polyLoopXY]
+    | [_], _ => simp [polyLoopXY]
+    | _ :: _ :: _, h2 => simp at h2
+
+/-- the planimetric vertices of a list of 3D positions -/
+def xy (pts : List (α × α × α)) : List (α × α) := pts.map (fun p => (p.1, p.2.1))
+
+/-- `projOnTrack3_planimetric`: `__projOnTrack(point, track)` on 3D positions **is planimetric**: it returns exactly the
+point, distance and index of `proj_polyligne` on the `(X, Y)` of the track and of the query, with the third coordinate
+of the returned point set to `0`; no altitude (of the query or of the track, `NaN` included) is ever read. -/
+theorem projOnTrack3_planimetric (sqrt : α → α) (eps : α) (pts : List (α × α × α)) (q : α × α × α)
+    (px py pz d : α) (i : Nat) :
+    projOnTrack3 sqrt eps pts q = .ok ((px, py, pz), d, i) ↔
+      (pz = 0 ∧ projPolyligne sqrt eps (xy pts) q.1 q.2.1 = .ok (d, px, py, i)) := by
+  have hl : (getXs pts).length ≤ (getYs pts).length := by simp [getXs, getYs]
+  have hzip : (getXs pts).zip (getYs pts) = xy pts := by
+    simp [getXs, getYs, xy, List.zip_map']
+  unfold projOnTrack3
+  rw [projPolyligneXY_spec false sqrt eps _ _ _ _ hl (Or.inl rfl), hzip]
+  cases projPolyligne sqrt eps (xy pts) q.1 q.2.1 with
+  | error e => simp [Except.mapError]
+  | ok r =>
+    obtain ⟨a, b, c, n⟩ := r
+    simp only [Except.mapError, Except.ok.injEq, Prod.mk.injEq]
+    constructor
+    · rintro ⟨⟨h1, h2, h3⟩, h4, h5⟩; exact ⟨h3.symm, h4, h1, h2, h5⟩
+    · rintro ⟨h3, h4, h1, h2, h5⟩; exact ⟨⟨h1, h2, h3.symm⟩, h4, h5⟩
+
+/-- `mapOnTrack3_coord`: `mapOnTrack(coord, track)` (first argument not a `Track`) returns a single
+`(ENUCoords(px, py, 0), d, i)` which is the planimetric projection of the coordinate: with
+`proj_polyline_min_partial` / `proj_polyline_nearest_partial` on `xy pts` this gives all clauses of the property. -/
+theorem mapOnTrack3_coord (sqrt : α → α) (eps : α) (pts : List (α × α × α)) (q : α × α × α)
+    (out : ((α × α × α) × α × Nat) ⊕ List ((α × α × α) × α × Nat))
+    (h : mapOnTrack3 sqrt eps pts (.inl q) = .ok out) :
+    ∃ px py d i, out = .inl ((px, py, 0), d, i) ∧ projPolyligne sqrt eps (xy pts) q.1 q.2.1 = .ok (d, px, py, i) := by
+  simp only [mapOnTrack3] at h
+  cases hp : projOnTrack3 sqrt eps pts q with
+  | error e => rw [hp] at h; cases h
+  | ok r =>
+    rw [hp] at h
+    obtain ⟨⟨px, py, pz⟩, d, i⟩ := r
+    obtain ⟨hz, hproj⟩ := (projOnTrack3_planimetric sqrt eps pts q px py pz d i).mp hp
+    subst hz
+    injection h with h
+    exact ⟨px, py, d, i, h.symm, hproj⟩
+
+/-- `mapOnTrack3_track`: `mapOnTrack(track_of_queries, track)` returns one row per query, in order; row `j` is
+`(ENUCoords(px, py, 0), d, i)`, the planimetric projection of query `j` (its `dist` and `edge` features are `d`, `i`). -/
+theorem mapOnTrack3_track (sqrt : α → α) (eps : α) (pts : List (α × α × α)) (qs : List (α × α × α))
+    (out : ((α × α × α) × α × Nat) ⊕ List ((α × α × α) × α × Nat))
+    (h : mapOnTrack3 sqrt eps pts (.inr qs) = .ok out) :
+    ∃ rows, out = .inr rows ∧ rows.length = qs.length ∧
+      ∀ (j : Nat) (q : α × α × α), qs[j]? = some q → ∃ px py d i, rows[j]? = some ((px, py, 0), d, i) ∧
+        projPolyligne sqrt eps (xy pts) q.1 q.2.1 = .ok (d, px, py, i) := by
+  have key : ∀ (qs : List (α × α × α)) (rows : List ((α × α × α) × α × Nat)),
+      mapOnTrack3All sqrt eps pts qs = .ok rows → rows.length = qs.length ∧
+      ∀ (j : Nat) (q : α × α × α), qs[j]? = some q → ∃ px py d i, rows[j]? = some ((px, py, 0), d, i) ∧
+        projPolyligne sqrt eps (xy pts) q.1 q.2.1 = .ok (d, px, py, i) := by
+    intro qs
+    induction qs with
+    | nil =>
+      intro rows h
+      simp only [mapOnTrack3All] at h; injection h with h; subst h
+      exact ⟨rfl, fun j q hq => by simp at hq⟩
+    | cons q0 qs ih =>
+      intro rows h
+      rw [mapOnTrack3All] at h
+      split at h
+      · cases h
+      · rename_i r0 hr0
+        split at h
+        · cases h
+        · rename_i rs hrs
+          injection h with h; subst h
+          obtain ⟨l, f⟩ := ih rs hrs
+          refine ⟨by simp [l], ?_⟩
+          intro j q hq
+          cases j with
+          | zero =>
+            simp at hq; subst hq
+            obtain ⟨⟨px, py, pz⟩, d, i⟩ := r0
+            obtain ⟨hz, hproj⟩ := (projOnTrack3_planimetric sqrt eps pts q0 px py pz d i).mp hr0
+            subst hz
+            exact ⟨px, py, d, i, by simp, hproj⟩
+          | succ j =>
+            simp at hq
+            obtain ⟨px, py, d, i, e1, e2⟩ := f j q hq
+            exact ⟨px, py, d, i, by simp [e1], e2⟩
+  simp only [mapOnTrack3] at h
+  cases hp : mapOnTrack3All sqrt eps pts qs with
+  | error e => rw [hp] at h; cases h
+  | ok rows =>
+    rw [hp] at h
+    injection h with h
+    exact ⟨rows, h.symm, key qs rows hp⟩
+
+/-- non-vacuity of `proj_polyline_nearest_partial` (horizontal, zero-length, then oblique south-west-bound; `eps = 1`
+skips exactly the zero-length segments on the integer lattice): query `(0,0)` → segment 2 (the index counts the
+skipped segment), foot `(28/25, -21/25)`, distance `7/5` (segment 0 is at distance 3) -/
+example : (projPolyligne sqTable 1 [(-4, 3), (4, 3), (4, 3), (1, -1)] 0 0).toOption
+    = some (7 / 5, 28 / 25, -21 / 25, 2) := by decide +kernel
+/-- a west-bound horizontal segment `(8,0)-(0,0)`, query `(3,4)` → the foot `(3,0)` at distance 4 -/
+example : (projSegment sqTable 8 0 0 0 3 4).toOption = some (4, 3, 0) := by decide +kernel
+/-- evaluated on the model: `__projOnTrack` with altitudes (track at 35 and 40, query at 100) → the planimetric foot
+`(3, 0, 0)` at planimetric distance 4 -/
+example : (match projOnTrack3 sqTable 1 [(0, 0, 35), (8, 0, 40)] (3, 4, 100) with
+    | .ok r => r == ((3, 0, 0), 4, 0) | .error _ => false) = true := by decide +kernel
+/-- evaluated on the model: a `Yp` shorter than `Xp` raises `IndexError` -/
+example : (match projPolyligneXY false sqTable 1 [0, 8, 9] [0, 0] 3 4 with
+    | .error .index => true | _ => false) = true := by decide +kernel
 
 end TV.C20
